@@ -621,7 +621,7 @@ type c14Stress struct {
 	Questions []c14Question `json:"questions"`
 	DelayMs   int           `json:"delay_ms"`
 	Rounds    int           `json:"rounds"`
-	SharedSlices bool       `json:"shared_slices"` // known-finding class: two range questions, same expr+step, different lookback
+	SharedSlices bool       `json:"shared_slices"` // two range questions, same expr+step, different lookback (regression scenario of fix fb76e32)
 	// observed
 	ServerMaxTotal int            `json:"server_side_max_total_inflight"`
 	MaxTotal    int               `json:"max_total_inflight"`
@@ -820,9 +820,17 @@ func c14GenStress(r *rand.Rand, id int, directed int) *c14Stress {
 		{Kind: "config"}, {Kind: "flags"}, {Kind: "metadata", Arg: "foo_total"}, {Kind: "metadata", Arg: "bar"},
 		{Kind: "range", Arg: "up", Lookback: "5h", Step: "1m"}, {Kind: "range", Arg: "count(foo)", Lookback: "9h", Step: "5m"},
 		{Kind: "range", Arg: "bad_range", Lookback: "5h", Step: "1m"}, {Kind: "range", Arg: "short", Lookback: "30m", Step: "1m"},
+		// overlapping windows over one expression and step (their 2h-aligned interior slices are the same requests)
+		{Kind: "range", Arg: "up", Lookback: "9h", Step: "1m"}, {Kind: "range", Arg: "up", Lookback: "13h", Step: "1m"},
+		{Kind: "range", Arg: "count(foo)", Lookback: "5h", Step: "5m"},
+		// questions that fit into ONE request: lookback below the 2h slice size, or a step that rounds the slice size to zero
+		{Kind: "range", Arg: "short2", Lookback: "1h", Step: "5m"}, {Kind: "range", Arg: "short3", Lookback: "1h30m", Step: "1m"},
+		{Kind: "range", Arg: "short4", Lookback: "10m", Step: "1m"}, {Kind: "range", Arg: "big_step", Lookback: "6h", Step: "5h"},
+		{Kind: "query", Arg: "sum(up)"}, {Kind: "query", Arg: "bad_query2"},
 	}
 	if directed == 1 {
-		// the class C14 names at model level: same expr and step, different lookback => different lock keys, shared slices
+		// regression scenario of fix fb76e32: same expr and step, different lookback => the windows share slices, so they
+		// must be serialised by ONE lock key
 		st.SharedSlices = true
 		st.Pool = 16
 		st.DelayMs = 40
@@ -831,7 +839,21 @@ func c14GenStress(r *rand.Rand, id int, directed int) *c14Stress {
 		st.Callers = []int{0, 1, 0, 1}
 		return st
 	}
+	if directed == 2 {
+		// many more callers than workers, each with its own single-request range question
+		st.Pool = 1 + r.Intn(3)
+		st.DelayMs = 20
+		st.Rounds = 1
+		for i := 0; i < 8; i++ {
+			st.Questions = append(st.Questions, c14Question{Kind: "range", Arg: fmt.Sprintf("single_%d", i), Lookback: []string{"10m", "30m", "1h", "1h59m"}[i%4], Step: "1m"})
+			st.Callers = append(st.Callers, i)
+		}
+		return st
+	}
 	nq := 1 + r.Intn(4)
+	if r.Intn(4) == 0 {
+		nq = 5 + r.Intn(6) // many distinct questions at once: the pool, not the key lock, is what bounds the requests
+	}
 	perm := r.Perm(len(pool))
 	for i := 0; i < nq; i++ {
 		st.Questions = append(st.Questions, pool[perm[i]])
@@ -910,12 +932,7 @@ func c14KeyTableOracle(rows []c14KeyRow) (bad []string, known []string) {
 						continue
 					}
 					msg := fmt.Sprintf("%q and %q send the identical request %s under different lock keys %v / %v", rows[i].Question.String(), rows[j].Question.String(), a, rows[i].LockKeys, rows[j].LockKeys)
-					qi, qj := rows[i].Question, rows[j].Question
-					if qi.Kind == "range" && qj.Kind == "range" && qi.Arg == qj.Arg && qi.Step == qj.Step && qi.Lookback != qj.Lookback {
-						known = append(known, msg)
-					} else {
-						bad = append(bad, msg)
-					}
+					bad = append(bad, msg)
 				}
 			}
 		}
@@ -983,6 +1000,8 @@ func runC14(args []string) int {
 	stress := make([]*c14Stress, 0, nStress+2)
 	stress = append(stress, c14GenStress(r, id, 1))
 	id++
+	stress = append(stress, c14GenStress(r, id, 2))
+	id++
 	for i := 0; i < nStress; i++ {
 		stress = append(stress, c14GenStress(r, id, 0))
 		id++
@@ -1017,10 +1036,8 @@ func runC14(args []string) int {
 			what := fmt.Sprintf("stress pool=%d callers=%d questions=%v: %s", st.Pool, len(st.Callers), st.Questions, strings.Join(bad, "; "))
 			if st.SharedSlices {
 				sharedHit++
-				rep.failKnown(fmt.Sprint(st.ID), what, st, "C14-range-shared-slices")
-			} else {
-				rep.fail(fmt.Sprint(st.ID), what, st)
 			}
+			rep.fail(fmt.Sprint(st.ID), what, st)
 		}
 		if len(rep.Samples) < 5 && st.ID%7 == 0 {
 			rep.sample(st)
@@ -1062,9 +1079,6 @@ func runC14(args []string) int {
 	rep.hist("key_table_rows:" + fmt.Sprint(len(kt)))
 	for _, b := range ktBad {
 		rep.fail("keytable", "key table: "+b, kt)
-	}
-	if len(ktKnown) > 0 {
-		rep.failKnown("keytable", "key table: "+ktKnown[0]+fmt.Sprintf(" (%d shared requests)", len(ktKnown)), map[string]any{"rows": kt[8:]}, "C14-range-shared-slices")
 	}
 	rep.Notes = append(rep.Notes, fmt.Sprintf("key table: %d questions, %d shared-request pairs outside the known class, %d inside", len(kt), len(ktBad), len(ktKnown)))
 	rep.Notes = append(rep.Notes, fmt.Sprintf("sequential cases %d in %.1fs; %d stress runs in %.1fs; directed shared-slices scenario violated the oracle: %v",
